@@ -133,6 +133,7 @@ PENDING = {
     "norm:integer-or-bool-input:dtype": "norm of an integer / bool array is computed in the integer dtype (NumPy converts to float first)",
     "norm:integer-or-bool-input:TypeError": "same mechanism: a negative ord raises for integer input",
     "norm:ndim>2&axis-None&ord-None:ValueError": "norm(x) of a 3-d array with default arguments raises (NumPy: 2-norm of x.ravel())",
+    "qr:sfqr&complex:QR!=A": "sfqr of a complex matrix with several column blocks multiplies by Q.T instead of Q^H",
 }
 
 TD = ["float64"] * 4 + ["float32"] * 2 + ["int64"] * 2 + ["int32"] * 2 + ["complex128"] * 2 + ["complex64", "uint8", "bool"]
@@ -283,8 +284,8 @@ def _gen_tensordot(rng):
 
 
 def _gen_dot(rng, kind):
-    na = rng.choice((0, 1, 1, 2, 2, 2, 3, 3)) if kind == "dot" else rng.randint(1, 3)
-    nb = rng.choice((0, 1, 1, 2, 2, 2, 3, 3)) if kind == "dot" else rng.randint(1, 3)
+    na = rng.choice((0, 1, 1, 1, 2, 2, 2, 2, 2, 3, 3, 3)) if kind == "dot" else rng.randint(1, 3)
+    nb = rng.choice((0, 1, 1, 1, 2, 2, 2, 2, 2, 3, 3, 3)) if kind == "dot" else rng.randint(1, 3)
     k = rng.randint(1, 5)
     u = rng.random()
     if u < 0.15:
